@@ -954,6 +954,59 @@ def gen_name_triples():
     return out
 
 
+# ---------------------------------------------------------------------------------------- tiny grammar (C01/C02/C14)
+def gen_tiny(max_stmts=2):
+    """Every function body of at most `max_stmts` statements over a small alphabet of statements and
+    expressions (well- and ill-typed, declared and undeclared names), followed by `return x`."""
+    import itertools
+    i32 = ["prim", "i32"]
+    out = []
+
+    def exprs(g):
+        one = ["prim", ["pv", "i32", 1]]
+        tru = ["prim", ["pv", "bool", 1]]
+        return [
+            ["expr", one], ["expr", tru], ["expr", ["name", g.ident("x")]], ["expr", ["name", g.ident("y")]],
+            ["expr", ["call", g.ident("g"), ["expr", one]]], ["expr", ["call", g.ident("g")]],
+            ["expr", ["name", g.ident("x")], ["Plus", one]], ["expr", ["name", g.ident("x")], ["Plus", tru]],
+            ["expr", ["name", g.ident("K")]],
+        ]
+    NE = 9
+    kinds = ["let_y", "letm_y", "let_x", "bind_x", "bind_y", "call", "if", "loop_break", "ret"]
+    stmts_space = [(k, e) for k in kinds for e in range(NE)]
+    for n in range(0, max_stmts + 1):
+        for combo in itertools.product(stmts_space, repeat=n):
+            g = Gen(0)
+            body = []
+            for k, e in combo:
+                ex = exprs(g)[e]
+                if k == "let_y":
+                    body.append(["let", g.ident("y"), 0, ["noty"], ex])
+                elif k == "letm_y":
+                    body.append(["let", g.ident("y"), 1, ["ty", i32], ex])
+                elif k == "let_x":
+                    body.append(["let", g.ident("x"), 1, ["noty"], ex])
+                elif k == "bind_x":
+                    body.append(["bind", g.ident("x"), ex])
+                elif k == "bind_y":
+                    body.append(["bind", g.ident("y"), ex])
+                elif k == "call":
+                    body.append(["call", g.ident("g"), ex])
+                elif k == "if":
+                    body.append(["if", ["ifs", ["single", ex], ["ifbody", ["ret", ex]], ["noelse"], ["noelif"]]])
+                elif k == "loop_break":
+                    body.append(["loop", ["let", g.ident("y"), 0, ["noty"], ex], ["break"]])
+                else:
+                    body.append(["ret", ex])
+            body.append(["ret", ["expr", ["name", g.ident("x")]]])
+            prog = ["program",
+                    ["const", g.ident("K"), i32, ["cexpr", ["cval", ["pv", "i32", 3]]]],
+                    ["fn", g.ident("g"), ["params", [g.ident("a"), i32]], i32, ["body", ["ret", ["expr", ["name", g.ident("a")]]]]],
+                    ["fn", g.ident("f"), ["params", [g.ident("x"), i32]], i32, ["body"] + body]]
+            out.append((prog, {"stream": "tiny", "exhaustive": max_stmts}))
+    return out
+
+
 def generate(seed, n_wf, n_fault, n_free, n_known=0):
     """Deterministic batch: list of (program, meta)."""
     out = []
